@@ -202,6 +202,9 @@ def analyse(name, text, props, out, ref_snapshot=None):
     if "C07" in props:
         for fp, what in c07_violations(o):
             out("C07", fp, what)
+    if "C08" in props:
+        for fp, what in P.wellformed_violations(o.file, text):
+            out("C08", fp, what)
     if "C06" in props and ref_snapshot is not None:
         now = snapshot()
         # a module imported for the first time during the run is not a state change: compare only what both
